@@ -84,8 +84,8 @@ def gen_hist(rng, kind):
             f[s] = 1
         if rng.chance(1, 2):
             f[syms[0]] = 1 << 20
-    elif kind == "deep":    # depth > 32 : JERR_HUFF_CLEN_OVERFLOW boundary (model-vs-code only)
-        n = rng.range(33, 40)
+    elif kind == "deep":    # untruncated depth 33..41 (the deepest the 10^9 limit admits): F15 regression
+        n = rng.range(33, 41)
         vals = fib_like(rng, n, 1)
         for s, v in zip(rng.shuffle(range(256))[:n], vals):
             f[s] = v
@@ -147,7 +147,7 @@ def random_valid_bits(rng, nsym):
 
 def run(ctx):
     rng = ctx.rng
-    ctx.regen(["Nbits", "StdHuff"])
+    ctx.regen(["Nbits", "StdHuff", "HuffGen"])
     ctx.prove()
     drv = ctx.model_driver()
     flavours = ["simd", "plain"] if not ctx.thorough() else ["simd", "plain", "asan"]
@@ -268,12 +268,7 @@ def run_cases(ctx, cases, exes, drv, flavours):
         # ---- property-level oracle on the implementation ----
         if kind.startswith("gen-") or kind == "corpus-gen":
             nzc = sum(1 for x in meta if x)
-            if kind == "gen-deep" and impl.startswith("err ClenOverflow") and sum(meta) < 10 ** 9:
-                # F15: a histogram an image CAN produce (<= 40 distinct symbols, total < 10^9) for which the
-                # generator raises JERR_HUFF_CLEN_OVERFLOW instead of returning a table
-                ctx.violation("generator returns JERR_HUFF_CLEN_OVERFLOW (untruncated depth > 32) for a Fibonacci-like histogram with total %d < 10^9" % sum(meta),
-                              {"case": line, "impl": impl}, signature="clen-overflow-fibonacci-depth>32")
-            if kind != "gen-deep" and nzc <= 254:
+            if nzc <= 254 and sum(meta) < 10 ** 9:
                 bad = table_valid_for(meta, impl)
                 if bad:
                     ctx.violation("generated table invalid: " + bad, {"case": line, "impl": impl}, signature="gen-invalid:" + kind)
